@@ -248,9 +248,11 @@ def run(ctx) -> RuleResult:
         "__array_finalize__)",
     )
     n_sinks = n_funcs = 0
-    for module, qual, func in ctx.repo.all_functions():
+    for module, qual, func in ctx.repo.analysed_functions():
         if module.is_pyx:
             continue
+        if func.name in module.absorbed:
+            continue  # private helper inlined into every caller: its writes are judged there
         n_funcs += 1
         allowed = set(OUTPUT_PARAMS)
         if func.name in SELF_WRITERS:
